@@ -134,7 +134,30 @@ type tcase struct {
 // breach (no progress, over-read, over-write).
 func drive(t transform.Transformer, src []byte, cuts []int, dcap int, minUnit int) (out []byte, problem string, legitStall bool) {
 	t.Reset()
-	dst := make([]byte, dcap)
+	// The destination is, in turn, a slice of its own, a window in the middle
+	// of a larger buffer (capacity beyond its length: the length is what counts)
+	// and such a window with its capacity cut down; the bytes around a window
+	// are canaries.
+	const guard = 24
+	back := make([]byte, dcap+2*guard)
+	for i := range back {
+		back[i] = 0xA5
+	}
+	dst := back[guard : guard+dcap]
+	switch (len(src) + dcap) % 3 {
+	case 0:
+		dst = make([]byte, dcap)
+	case 2:
+		dst = back[guard : guard+dcap : guard+dcap]
+	}
+	canaries := func() bool {
+		for i := 0; i < guard; i++ {
+			if back[i] != 0xA5 || back[guard+dcap+i] != 0xA5 {
+				return false
+			}
+		}
+		return true
+	}
 	avail := 0 // bytes of src made available so far
 	next := 0  // index into cuts
 	pos := 0   // bytes consumed
@@ -162,6 +185,9 @@ func drive(t transform.Transformer, src []byte, cuts []int, dcap int, minUnit in
 		nDst, nSrc, err := t.Transform(dst, src[pos:avail], atEOF)
 		if nDst < 0 || nDst > len(dst) || nSrc < 0 || nSrc > avail-pos {
 			return out, fmt.Sprintf("Transform returned nDst=%d nSrc=%d for len(dst)=%d len(src)=%d", nDst, nSrc, len(dst), avail-pos), false
+		}
+		if !canaries() {
+			return out, fmt.Sprintf("Transform wrote outside its destination (len(dst)=%d cap(dst)=%d nDst=%d)", len(dst), cap(dst), nDst), false
 		}
 		out = append(out, dst[:nDst]...)
 		pos += nSrc
